@@ -58,7 +58,7 @@ func openWorld(f *vevid.Flags, rep *vevid.Report) *world {
 	kv.DefaultCompactCheckInterval = 24 * time.Hour // compaction only when the harness asks for it
 	e, err := tsdb.NewEngine()
 	if err != nil {
-		vevid.Fatal("new engine: %v", err)
+		vevid.OpFailed("new engine: %v", err)
 	}
 	return &world{f: f, rep: rep, engine: e, dir: dir}
 }
@@ -86,15 +86,15 @@ func (w *world) newDB() *dbEnv {
 		AutoCreateNS: true,
 	}
 	if err := w.engine.CreateShards(name, opt, models.ShardID(1)); err != nil {
-		vevid.Fatal("create shards: %v", err)
+		vevid.OpFailed("create shards: %v", err)
 	}
 	db, ok := w.engine.GetDatabase(name)
 	if !ok {
-		vevid.Fatal("database %s missing", name)
+		vevid.OpFailed("database %s missing", name)
 	}
 	shard, ok := db.GetShard(models.ShardID(1))
 	if !ok {
-		vevid.Fatal("shard missing")
+		vevid.OpFailed("shard missing")
 	}
 	return &dbEnv{w: w, name: name, db: db, shard: shard, conv: metric.NewProtoConverter(models.NewDefaultLimits())}
 }
@@ -133,7 +133,7 @@ func (e *dbEnv) write(metricName string, tagSets []map[string]string) ([]uint32,
 		}
 		var buf bytes.Buffer
 		if _, err := e.conv.MarshalProtoMetricListV1To(ml, &buf); err != nil {
-			vevid.Fatal("marshal proto metric list: %v", err)
+			vevid.OpFailed("marshal proto metric list: %v", err)
 		}
 		var br metric.StorageBatchRows
 		br.UnmarshalRows(buf.Bytes())
@@ -146,14 +146,14 @@ func (e *dbEnv) write(metricName string, tagSets []map[string]string) ([]uint32,
 		for i, row := range rows {
 			metricID, err := metaDB.GenMetricID(row.NameSpace(), row.Name())
 			if err != nil {
-				vevid.Fatal("GenMetricID: %v", err)
+				vevid.OpFailed("GenMetricID: %v", err)
 			}
 			if _, err = metaDB.GenFieldID(metricID, field.Meta{Name: fieldName, Type: field.SumField}); err != nil {
-				vevid.Fatal("GenFieldID: %v", err)
+				vevid.OpFailed("GenFieldID: %v", err)
 			}
 			sid, err := indexDB.GenSeriesID(metricID, row)
 			if err != nil {
-				vevid.Fatal("GenSeriesID: %v", err)
+				vevid.OpFailed("GenSeriesID: %v", err)
 			}
 			got := map[string]string{}
 			it := row.NewKeyValueIterator()
@@ -184,10 +184,10 @@ func (e *dbEnv) prepareFlush() {
 
 func (e *dbEnv) flush() {
 	if err := e.db.FlushMeta(); err != nil {
-		vevid.Fatal("FlushMeta: %v", err)
+		vevid.OpFailed("FlushMeta: %v", err)
 	}
 	if err := e.shard.FlushIndex(); err != nil {
-		vevid.Fatal("FlushIndex: %v", err)
+		vevid.OpFailed("FlushIndex: %v", err)
 	}
 }
 
